@@ -65,8 +65,17 @@ def check(chk):
               why="members are not fitted along the model's sample dimension")
 
     # RNG -------------------------------------------------------------------------
-    rngs = [c for c in calls_in(fit) if (dotted(c.func) or "").endswith("default_rng")]
-    chk.require(len(rngs) == 1, "EOFBootstrapper.fit: generator construction vanished")
+    rngs = [c for c in calls_in(fit) if (dotted(c.func) or "").split(".")[-1] in ("default_rng", "RandomState", "Generator")]
+    draws0 = [c for c in calls_in(fit) if isinstance(c.func, ast.Attribute) and c.func.attr in ("choice", "integers", "permutation", "random", "shuffle")]
+    if len(rngs) != 1:
+        # the generator must be created inside fit, from the seed: one that lives on the object keeps its state between fits
+        node = draws0[0] if draws0 else fit.node
+        src = sorted({p.atom.name for c in draws0 for p in ff.paths(c.func.value, spine_only=True)})
+        chk.violation("RNG.seed.fresh", fit, node, construct="fit re-creates the generator from the seed",
+                      why=f"fit draws from {src or 'no generator built in fit'}: the generator is not (re)created from the seed inside fit, so a second fit "
+                          "continues the random stream and the same seed no longer reproduces the same resamples")
+        return
+    chk.ok("RNG.seed.fresh", fit, rngs[0], construct="fit re-creates the generator from the seed")
     seed = rngs[0].args[0] if rngs[0].args else call_kwargs(rngs[0]).get("seed")
     okseed = seed is not None and any(p.atom.name == "self._params" and p.ops and const_str(getattr(p.ops[0].node, "slice", None)) == "seed" for p in ff.paths(seed, spine_only=True))
     chk.check(okseed, "RNG.seed", fit, rngs[0], why="the resampling generator is not seeded from the seed parameter: equal seeds give different members")
@@ -127,12 +136,31 @@ def check(chk):
     reds = [o for p in cps for o in p.ops if o.kind == "method" and o.name in ("mean", "sum", "std")]
     along = bool(reds) and all(any(from_model_attr(a, "sample_name") for a in o.node.args[:1]) for o in reds)
     chk.check(uses_model and along, "SIGN.source", fit, S, why="the alignment sign must come from the correlation of member and model scores along the sample dimension")
-    # member labels
-    lab = [c for c in calls_in(fit) if (dotted(c.func) or "").endswith("arange") and len(c.args) == 2]
-    oklab = any(norm(c.args[0]) == "1" and norm(c.args[1]).replace(" ", "") == "n_bootstraps+1" for c in lab)
-    asg = [c for c in calls_in(fit) if isinstance(c.func, ast.Attribute) and c.func.attr == "assign_coords" and "n" in call_kwargs(c)]
-    chk.check(oklab and len(asg) == 4, "SIGN.labels", fit, lab[0] if lab else fit.node, construct="members labelled n = 1..n_bootstraps on all four results",
-              why="the member dimension is not labelled 1..n_bootstraps on every result")
+    # member labels: each of the four bootstrapped results passes through assign_coords(n=arange(1, n_bootstraps + 1))
+    # (followed into private helpers; the label array may be a shared local)
+    first = None
+    bad = []
+    for key in ("components", "scores", "explained_variance", "total_variance"):
+        val, node = container_write(fit, key)
+        labelled = False
+        for p in ff.paths(val, spine_only=True, follow=True):
+            for o in p.ops:
+                if o.kind == "method" and o.name == "assign_coords" and "n" in call_kwargs(o.node):
+                    first = first or o.node
+                    lps = ff.eval_in(o.frame, call_kwargs(o.node)["n"], spine_only=True)
+                    lo = any(q.atom.kind == "const" and q.atom.name == "1" and [x.kind for x in q.ops] == ["arg"] and q.ops[0].name.endswith("arange") and q.ops[0].other == 0 for q in lps)
+                    hi = any((q.atom.name in ("self._params", "n_bootstraps", "self.n_bootstraps")) and q.has_op("binop", "Add")
+                             and any(x.kind == "binop" and x.name == "Add" and norm(x.other) == "1" for x in q.ops)
+                             and q.ops[-1].kind == "arg" and q.ops[-1].name.endswith("arange") and q.ops[-1].other == 1
+                             and all(x.kind in ("subscript", "binop", "arg") for x in q.ops)
+                             and ("n_bootstraps" in q.atom.name or any(x.kind == "subscript" and "n_bootstraps" in x.name for x in q.ops))
+                             for q in lps)
+                    if lo and hi:
+                        labelled = True
+        if not labelled:
+            bad.append(key)
+    chk.check(not bad, "SIGN.labels", fit, first if first is not None else fit.node, construct="members labelled n = 1..n_bootstraps on all four results",
+              why=f"the member dimension is not labelled 1..n_bootstraps on every result (unlabelled or mislabelled: {bad})")
     loops = [n for n in walk_no_nested(fit.node) if isinstance(n, ast.For)]
     okloop = bool(loops) and "n_bootstraps" in norm(loops[0].iter)
     chk.check(okloop, "SIGN.labels.count", fit, loops[0] if loops else fit.node, construct="one member per requested bootstrap", why="the number of members is not n_bootstraps")
